@@ -786,7 +786,14 @@ def main(run):
         # hand-written specification (Props/C20_spec.v), which the generated file aliases for those functions
         run.notes.append("tie: correspondence-only for %s" % ", ".join("%s (%s)" % kv for kv in sorted(refused.items())))
         run.extra_cov["tie"] = "translation for %d definitions, correspondence-only for %d" % (len(meta["functions"]), len(refused))
-        run.build_props(props="Props/C20_spec.v")
+        # the aliased definitions satisfy `generated = published` trivially; try the full theorem file first (it goes through
+        # when the refused functions have congruence-style proofs), else the theorems on the hand formulas
+        nb, no = len(run.broken), len(run.obligations)
+        if not run.build_props():
+            del run.broken[nb:]
+            del run.obligations[no:]
+            run.notes.append("Props/C20.v does not build with the aliased definitions; theorems established on the hand formulas (Props/C20_spec.v)")
+            run.build_props(props="Props/C20_spec.v")
     else:
         run.extra_cov["tie"] = "translation (regenerated definitions proved equal to the published formulas) + correspondence"
         run.build_props()
